@@ -355,6 +355,18 @@ def seed_acl(rng, plat, n=None, numbered=None, groups=True, headings=True, multi
                     pp = (lambda: "eq " + " ".join(str(x) for x in sorted(rng.sample([22, 80, 443, 8080, 135, 514], rng.randint(1, 3 if plat == "ios" and multi else 1)))))
                     ln = f"{parts[0]} {rng.choice(['tcp', 'udp'])} {kwd} {name} {pp() if rng.random() < 0.6 else ''} {kwd} {name2} {pp()}".replace("  ", " ")
         lines.append(ln)
+        if groups and rng.random() < 0.06:
+            # a group of two equal-size neighbouring blocks, followed by an entry for the block just before them
+            from harness.shadow import blk
+            lnn = rng.randint(8, 30)
+            kk = rng.randrange(1, 2 ** min(lnn, 20) - 4)
+            nm = rng.choice(["GN", "GM"])
+            gdict.setdefault(nm, [rng.choice(spellings_ace(blk(i, lnn), plat)) for i in (kk, kk + 1)])
+            if nm in ("GN", "GM") and len(gdict[nm]) == 2:
+                kwd = "addrgroup" if plat == "nxos" else "object-group"
+                act_ = ln.split()[0] if ln.split()[0] in ("permit", "deny") else "permit"
+                lines.append(f"{act_} ip {kwd} {nm} any")
+                lines.append(native_only(f"{act_} ip {rng.choice(spellings_ace(blk(kk - 1, lnn), plat))} any", plat))
     if not multi or plat == "nxos":
         pass
     if numbered if numbered is not None else rng.random() < 0.4:
